@@ -36,7 +36,7 @@ ALL_FIELDS = ('{"v","eol","banner","tail","split","pad","cookie","kex","hostkey"
               '"enc_sc","mac_cs","mac_sc","cmp_cs","cmp_sc","ff","strict",'
               '"rest","req","grp","e","f","ks","sig","kt","enc","menc"}')
 INVS = ['AgreeOrFail', 'BothOrNeither', 'NoDowngrade', 'FirstClientPref',
-        'EditDetected', 'Completion']
+        'EditDetected', 'Completion', 'ReportOnlyAfterVerify']
 
 
 def write_cfg(name, invariants=(), **consts):
@@ -44,6 +44,7 @@ def write_cfg(name, invariants=(), **consts):
              EditListMode='"all"',
              TrustAllSet='{FALSE}', HashOmit='{}', PreferServer='FALSE',
              SignBlind='FALSE', ServerSkipsBanner='FALSE',
+             ReportAtHostKey='FALSE',
              EditMsgs=ALL_MSGS, EditFields=ALL_FIELDS, Emit='FALSE')
     d.update(consts)
     lines = ['CONSTANTS'] + [f'  {k} = {v}' for k, v in d.items()]
@@ -418,6 +419,10 @@ def main(ctx):
                 KexType='"gex"', SignBlind='TRUE',
                 EditMsgs='{"GGRP", "INIT", "REPLY"}', expect='EditDetected',
                 invariants=['EditDetected'], workers=W)
+        tlc_run(ctx, 'sensitivity: host key reported before the signature is '
+                'verified', ReportAtHostKey='TRUE', TrustAllSet='{TRUE}',
+                EditMsgs='{"REPLY"}', expect='ReportOnlyAfterVerify',
+                invariants=['ReportOnlyAfterVerify'], workers=W)
         tlc_run(ctx, 'sensitivity: the server skips lines before the version',
                 ServerSkipsBanner='TRUE', EditMsgs='{"VC", "VS"}',
                 expect='EditDetected', invariants=['EditDetected'], workers=W)
@@ -461,7 +466,7 @@ def main(ctx):
         tables = {k: f() for k, f in tables.items()}
         tables['dh', 2] = [c for c in two() if len(c['edits']) == 2]
 
-    state = {'n': 0, 'traces': 0, 'tally': {}}
+    state = {'n': 0, 'traces': 0, 'tally': {}, 'entry': {}}
 
     def judge(o, case, kex, names, label, bytelevel=None, recipe=None):
         """Monitors on the observed outcome + comparison with the model."""
@@ -531,11 +536,53 @@ def main(ctx):
             ctx.divergence(f'{kex}: {label}: client failed but the server '
                            f'side never saw the connection end')
 
+    def judge_entry(o, kex, label, recipe, want_done):
+        """get_server_host_key(): a key is reported only if the exchange
+        hash and the host signature verified."""
+        eff = o.effects
+        state['entry'][bool(o.reported), '+'.join(sorted(set(eff))) or
+                       'no edit'] = state['entry'].get(
+            (bool(o.reported), '+'.join(sorted(set(eff))) or 'no edit'),
+            0) + 1
+        if o.mitm.errors:
+            raise MachineryError(f'MITM could not apply {label} on {kex}: '
+                                 f'{o.mitm.errors}')
+        sig = {'module': 'Handshake', 'clause': 'ReportOnlyAfterVerify',
+               'entry': 'get_server_host_key',
+               'kextype': H.spec_kextype(kex)}
+        rp = dict(recipe, kex=kex, label=label, entry='hostkey')
+        if o.reported and ('bound' in eff or 'sig' in eff):
+            ctx.violation(sig, f'{kex}: {label}: get_server_host_key() '
+                          f'returned a host key although a hashed / verified '
+                          f'field was altered in flight ({eff}): the '
+                          f'exchange hash or the host signature cannot have '
+                          f'verified', replay=rp)
+        elif o.reported:
+            rep_msg = o.mitm.by_name.get('REPLY') or \
+                o.mitm.by_name.get('PUBKEY')
+            sent = rep_msg.fields['ks'] if rep_msg and rep_msg.fields \
+                else None
+            if sent is not None and o.reported_key != sent and \
+                    not o.reported_key or (sent is not None and
+                                           sent.find(o.reported_key or
+                                                     b'?') < 0 and
+                                           o.reported_key != sent):
+                # a certificate is reported as its certified key
+                ctx.divergence(f'{kex}: {label}: reported key is not the '
+                               f'one the server sent')
+        if bool(o.reported) != bool(want_done):
+            ctx.divergence(f'{kex}: {label}: get_server_host_key(): model '
+                           f'says {"key" if want_done else "error"}, code '
+                           f'{"returned a key" if o.reported else "raised"} '
+                           f'({o.client_exc!r}) effects={eff}')
+        state['traces'] += 1
+
     def fixed_lists(names):
         cfg = {c: ['strong'] for c in ('kex', 'hostkey', 'enc', 'mac', 'cmp')}
         return real_lists(cfg, names)
 
-    def replay_case(kex, case, names, variant, run_command=True):
+    def replay_case(kex, case, names, variant, run_command=True,
+                    entry='connect'):
         cl, chk = real_lists(case['c'], names)
         sl, shk = real_lists(case['s'], names)
         try:
@@ -547,7 +594,15 @@ def main(ctx):
         o = H.run_handshake(kex, client=cl, server=sl, edits=edits,
                             trust='none' if case['trustall'] else 'known',
                             server_hostkeys=shk, client_hostkey_algs=chk,
-                            run_command=run_command)
+                            run_command=run_command, entry=entry)
+        if entry == 'hostkey':
+            judge_entry(o, kex, label,
+                        {'kind': 'case', 'case': case, 'names': names,
+                         'variant': variant}, case['done_c'])
+            ctx.count(('hostkey-entry', kex,
+                       tuple((e['msg'], e['field'], e['val'])
+                             for e in case['edits'])))
+            return o
         recipe = {'kind': 'case', 'case': case, 'names': names,
                   'variant': variant}
         judge(o, case, kex, names, label, recipe=recipe)
@@ -687,7 +742,8 @@ def main(ctx):
             ctx.level = 'exploration'
             return
         if rp['kind'] == 'case':
-            o = replay_case(kex, rp['case'], rp['names'], rp['variant'])
+            o = replay_case(kex, rp['case'], rp['names'], rp['variant'],
+                            entry=rp.get('entry', 'connect'))
         else:
             names = names_for(kex, pick_others(kex))
             if rp['narrow']:
@@ -731,6 +787,13 @@ def main(ctx):
                             run_command=not heavy)
             if o is None:
                 continue        # edit not applicable to this family
+            # the same case through the other API entry point
+            ed0 = case['edits'][0] if case['edits'] else None
+            if not heavy and (not quick or ed0 is None or ed0['msg'] in (
+                    'VS', 'IS', 'INIT', 'REPLY', 'GGRP', 'PUBKEY', 'SECRET',
+                    'DONE') or (ci + ki) % 5 == 0):
+                replay_case(kex, case, names, variant=ci + ki,
+                            run_command=False, entry='hostkey')
             sampled += 1
             if sampled % 211 == 1:
                 ctx.sample({'kex': kex, 'edits': case['edits'],
@@ -1029,6 +1092,13 @@ def main(ctx):
     hostkey_replay(ctx, H, quick, rnd, state, hk_tabs)
 
     join_all(ctx)
+    ctx.notes.append('get_server_host_key() entry point, (key reported, '
+                     'effect of the edit): ' + ', '.join(
+                         f'{k[0]}/{k[1]}={v}' for k, v in
+                         sorted(state['entry'].items(), key=str)))
+    ctx.require(state['entry'].get((True, 'no edit'), 0) >= 5 and
+                state['entry'].get((False, 'bound'), 0) >= 100,
+                f'entry point replay is vacuous: {state["entry"]}')
     ctx.traces_validated(state['traces'])
     ctx.notes.append(f'handshakes run against the implementation: '
                      f'{state["n"]}; by (receiver-visible effect of the '
